@@ -28,3 +28,9 @@ func IsPointer(v any) error {
 	}
 	return RuntimeError("non-pointer command/event")
 }
+
+// RType stands for a reflect.Type value (reflect.TypeOf is an engine intrinsic): the name of the dynamic type.
+// Comparable with ==; only the methods below exist.
+type RType string
+
+func (r RType) String() string { return string(r) }
